@@ -203,7 +203,7 @@ type Fault struct {
 	Method string // fcu, fcuAttr, getPayload, newPayload
 	Phase  string // prepare, process, finalize ("" = any)
 	Nth    int    // fire at the Nth matching call (0-based) counted from arming
-	Kind   string // error, INVALID, SYNCING, ACCEPTED, nilid, unknownid, delay
+	Kind   string // error, drop (connection cut, no answer), INVALID, SYNCING, ACCEPTED, nilid, unknownid, delay
 	Delay  time.Duration
 	Sticky bool // fire on every matching call until cleared (robust against late, cancelled calls)
 	seen   int
@@ -230,6 +230,32 @@ type ELFront struct {
 	// engine goroutine before/after its sibling goroutine in the application).
 	Jitter  time.Duration
 	jitterN uint64
+	conns   []net.Conn // accepted connections (closed by the "drop" fault: the call gets no answer at all)
+}
+
+// trackLn remembers accepted connections so that a fault can cut them.
+type trackLn struct {
+	net.Listener
+	f *ELFront
+}
+
+func (t trackLn) Accept() (net.Conn, error) {
+	c, err := t.Listener.Accept()
+	if err == nil {
+		t.f.mu.Lock()
+		t.f.conns = append(t.f.conns, c)
+		t.f.mu.Unlock()
+	}
+	return c, err
+}
+
+// dropConns closes every connection of the endpoint: pending calls fail on the client with a transport error, and the
+// client dials again for its next call (caller holds f.mu).
+func (f *ELFront) dropConns() {
+	for _, c := range f.conns {
+		c.Close()
+	}
+	f.conns = nil
 }
 
 type engineAPI struct{ f *ELFront }
@@ -246,7 +272,7 @@ func NewELFront(b *ELBackend, sock string) (*ELFront, error) {
 		return nil, err
 	}
 	f.ln, f.srv = ln, srv
-	go srv.ServeListener(ln)
+	go srv.ServeListener(trackLn{ln, f})
 	return f, nil
 }
 
@@ -349,6 +375,11 @@ func (a *engineAPI) ForkchoiceUpdatedV3(update engine.ForkchoiceStateV1, attr *e
 		switch ft.Kind {
 		case "error":
 			return resp, errInjected
+		case "drop":
+			f.mu.Lock()
+			f.dropConns()
+			f.mu.Unlock()
+			return resp, errInjected
 		case "INVALID", "SYNCING", "ACCEPTED":
 			resp.PayloadStatus.Status = ft.Kind
 			return resp, nil
@@ -434,6 +465,11 @@ func (a *engineAPI) GetPayloadV4(id engine.PayloadID) (*engine.ExecutionPayloadE
 		case "delay":
 			time.Sleep(ft.Delay)
 			f.mu.Lock()
+		case "drop":
+			f.mu.Lock()
+			f.dropConns()
+			f.mu.Unlock()
+			return nil, errInjected
 		default:
 			return nil, errInjected
 		}
@@ -486,6 +522,11 @@ func (a *engineAPI) NewPayloadV4(ed engine.ExecutableData, hashes []common.Hash,
 		f.mu.Unlock()
 		switch ft.Kind {
 		case "error":
+			return st, errInjected
+		case "drop":
+			f.mu.Lock()
+			f.dropConns()
+			f.mu.Unlock()
 			return st, errInjected
 		case "INVALID", "SYNCING", "ACCEPTED":
 			st.Status = ft.Kind
